@@ -26,7 +26,9 @@
 //   "ntx": number of schedule_advertisment calls it caused, "ncn": number of schedule_connection_event calls,
 //   "pend": an advertisement is scheduled at the radio after the call
 // followed by one {"e":"AdvTx","ch":c,"t_us":t,"when_us":w,"busy":b,"pdu":[..],"rsp":[..]} per schedule_advertisment
-// call (t = T0 + when, T0 := t, as documented in scheduled_radio.hpp; busy = the radio was not idle).
+// call (t = T0 + when, T0 := t, as documented in scheduled_radio.hpp; busy = the radio was not idle; pdu = header and
+// first 12 payload bytes of the advertising PDU, rsp = header + AdvA of the scan response data, [] if none was given).
+// The radio uses the default PDU layout (2 byte header, payload).
 #include <iterator>
 #include <vector>
 #include <algorithm>
